@@ -209,9 +209,15 @@ package asn1
 //@ modifies nothing
 //@ frame-trusted writes only the slice value it makes through reflection
 //@ site parseField#1 as el
-//@ loop 1 invariant 0 <= offset
+//@ loop 1 invariant 0 <= offset && 0 <= numElements && numElements <= offset
 //@ loop 2 invariant 0 <= offset
 //@ at el assert [every-element-is-decoded-with-the-callers-lax-flag] el.params.lax == lax
+//@ site reflect.MakeSlice#1 as ms
+//@ site getUniversalType#1 as ut
+//@ ensures [the-result-is-a-slice-made-for-exactly-the-elements-counted-also-when-there-are-none] err == nil ==> ms.called && ret == ms.res && ms.len == ms.cap && ms.len >= 0
+//@ ensures [an-unsupported-element-type-is-refused-before-anything-is-read] ut.called && !ut.res3 ==> err != nil && !ms.called
+//@ at ms assert [of-the-slice-type-asked-for] ms.typ == sliceType
+//@ at el assert [elements-are-decoded-in-order-from-the-same-content-octets-into-their-own-position] el.bytes == bytes && el.initOffset == offset
 
 // ---- C10: DER leaf encoders ------------------------------------------------------------------------
 
